@@ -395,3 +395,162 @@ Fixpoint merge_free (t : ty) : bool :=
                  && no_merge_alts (dedup (sort (flat_map alts (map normalize_nomerge ts))))
   | _ => true
   end.
+
+(* =========================================================================================== *)
+(* THE CHECK PATHS, as the code has them.
+   A type expression reaches `TypeMatcher::matches` along one of two evaluators:
+     - as an ORDINARY expression evaluated at call time (`eval_rt`): second argument of `isinstance`,
+       a value handed to the host API `TypeCompiled::new`;
+     - as an ANNOTATION evaluated once, at def/compile time, by the restricted evaluator of
+       eval/compiler/types.rs (`eval_ct`): parameter and return annotations, annotated assignment.
+   Both build `TypeCompiled` values bottom-up; each node keeps only the `Ty` of its children
+   (`as_ty().clone()`), rebuilds a `Ty`, and asks the factory for a fresh matcher (`alloc_ty`). *)
+
+(* Ty::union2 (typing/ty.rs): the fast cases in front of Ty::unions(vec![a, b]) *)
+Definition union2 (a b : ty) : ty :=
+  if is_any a || is_any b then TAny
+  else if ty_eqb a b then a
+  else if is_never a then b
+  else if is_never b then a
+  else unions_top [a; b].
+
+(* TypeCompiledImplAsStarlarkValue { type_compiled_impl, ty } + the heap it lives in (compiled.rs).
+   `tc_frozen` is a representation tag: nothing below reads it except `to_frozen`. *)
+Record tcomp := mk_tcomp { tc_ty : ty; tc_m : matcher; tc_frozen : bool }.
+
+(* factory.rs: any()/none()/bool()/int()/str() hand out the frozen statics TYPE_COMPILED_* when the
+   whole type is that type; every other matcher is allocated in the current (unfrozen) heap. *)
+Definition is_static_ty (t : ty) : bool :=
+  match t with TAny | TBase BNone | TBase BBool | TBase BInt | TBase BStr => true | _ => false end.
+(* TypeCompiledFactory::alloc_ty(ty, heap) = TypeCompiledFactory { heap, ty }.ty(ty) *)
+Definition alloc_ty (t : ty) : tcomp := mk_tcomp t (compile t) (is_static_ty t).
+(* TypeCompiled::from_ty *)
+Definition from_ty (t : ty) : tcomp := alloc_ty t.
+(* TypeCompiled::to_frozen: an already frozen value is returned as is, otherwise to_frozen_dyn
+   clones the struct (same ty, same matcher) into the frozen heap *)
+Definition to_frozen (c : tcomp) : tcomp :=
+  if tc_frozen c then c else mk_tcomp (tc_ty c) (tc_m c) true.
+
+(* TypeCompiled::type_list_of / type_set_of / type_dict_of / type_any_of_two / type_any_of (compiled.rs) *)
+Definition type_list_of (c : tcomp) : tcomp := alloc_ty (TList (tc_ty c)).
+Definition type_set_of (c : tcomp) : tcomp := alloc_ty (TSet (tc_ty c)).
+Definition type_dict_of (k v : tcomp) : tcomp := alloc_ty (TDict (tc_ty k) (tc_ty v)).
+Definition type_any_of_two (a b : tcomp) : tcomp := alloc_ty (union2 (tc_ty a) (tc_ty b)).
+Definition type_any_of (cs : list tcomp) : tcomp := alloc_ty (unions_top (map tc_ty cs)).
+
+(* what a type expression evaluates to as a Starlark value *)
+Inductive tvalue :=
+| TVRaw (t : ty)                (* not a TypeCompiled, answers eval_type() (or is None): None int str R1 typing.Iterable .. *)
+| TVComp (c : tcomp)            (* a TypeCompiled value *)
+| TVTuple (vs : list tvalue)    (* a Starlark tuple of type values: (A, B) *)
+| TVList (vs : list tvalue).    (* a Starlark list of type values: [A, B, C] (old union syntax) *)
+
+(* TypeCompiled::new(value, heap) (compiled.rs).  Errors (string literal, list of < 2 elements, not a type)
+   are raised before any check on every path alike and are outside this model. *)
+Fixpoint tc_new (v : tvalue) : tcomp :=
+  match v with
+  | TVRaw t => from_ty t                                            (* is_none / eval_type() branches *)
+  | TVComp c => c                                                   (* the `&dyn TypeCompiledDyn` branch: reused as is *)
+  | TVTuple vs => from_ty (TTuple (map (fun x => tc_ty (tc_new x)) vs))   (* Ty::tuple(elems) *)
+  | TVList vs => type_any_of (map tc_new vs)                        (* from_list *)
+  end.
+
+(* evaluation as an ORDINARY expression (call time): values/types/function.rs `at` / `at2` for
+   list[..] set[..] dict[..] tuple[.., ...]; typing/macro_refs.rs starlark_value_bit_or_for_type for `|` *)
+Fixpoint eval_rt (t : ty) : tvalue :=
+  match t with
+  | TList a => TVComp (type_list_of (tc_new (eval_rt a)))
+  | TSet a => TVComp (type_set_of (tc_new (eval_rt a)))
+  | TDict k v => TVComp (type_dict_of (tc_new (eval_rt k)) (tc_new (eval_rt v)))
+  | TTupleOf a => TVComp (from_ty (TTupleOf (tc_ty (tc_new (eval_rt a)))))
+  | TTuple ts => TVTuple (map eval_rt ts)
+  | TUnion ts =>
+      match ts with
+      | [a; b] => TVComp (type_any_of_two (tc_new (eval_rt a)) (tc_new (eval_rt b)))    (* a | b *)
+      | _ => TVList (map eval_rt ts)                                                    (* [a, b, c] *)
+      end
+  | _ => TVRaw t
+  end.
+
+(* evaluation as an ANNOTATION (def/compile time): eval/compiler/types.rs eval_expr.
+   eval_expr_as_type = TypeCompiled::new on the result of eval_expr. *)
+Fixpoint eval_ct (t : ty) : tvalue :=
+  match t with
+  | TList a => let i := tc_new (eval_ct a) in                  (* Index: i = eval_expr_as_type; a.at(i.to_inner()) *)
+               TVComp (type_list_of (tc_new (TVComp i)))
+  | TSet a => let i := tc_new (eval_ct a) in TVComp (type_set_of (tc_new (TVComp i)))
+  | TDict k v => TVComp (type_dict_of (tc_new (eval_ct k)) (tc_new (eval_ct v)))     (* Index2: at2(eval_expr i0, eval_expr i1) *)
+  | TTupleOf a => TVComp (from_ty (TTupleOf (tc_ty (tc_new (eval_ct a)))))
+  | TTuple ts => TVComp (from_ty (TTuple (map (fun x => tc_ty (tc_new (eval_ct x))) ts)))   (* Tuple: from_ty(Ty::tuple(xs)) *)
+  | TUnion ts => TVComp (type_any_of (map (fun x => tc_new (eval_ct x)) ts))           (* Union: type_any_of, also for a | b *)
+  | _ => TVRaw t
+  end.
+
+(* populate_types_in_type_expr: payload.compiler_ty = eval_expr_as_type(expr).as_ty().clone() *)
+Definition compiler_ty (t : ty) : ty := tc_ty (tc_new (eval_ct t)).
+
+(* Compiler::expr_for_type on a populated annotation: from_ty(compiler_ty); a run-time wildcard emits
+   no check at all; otherwise the compiled type is moved to the frozen heap. *)
+Definition expr_for_type_ty (cty : ty) : option tcomp :=
+  let c := from_ty cty in
+  if is_wildcard (tc_m c) then None else Some (to_frozen c).
+Definition matcher_of_annotation (o : option tcomp) : matcher :=
+  match o with None => MAny | Some c => tc_m c end.          (* no check emitted = everything accepted *)
+
+(* the sites *)
+(* globals.rs isinstance: TypeCompiled::new(ty.get(), heap)?.matches(value) *)
+Definition compile_at_isinstance (t : ty) : matcher := tc_m (tc_new (eval_rt t)).
+(* def.rs Compiler::parameter: expr_for_type(x.ty); checked by check_parameter_types -> check_type *)
+Definition compile_at_param (t : ty) : matcher := matcher_of_annotation (expr_for_type_ty (compiler_ty t)).
+(* def.rs Compiler::function: expr_for_type(return_type); checked by check_return_type -> check_type *)
+Definition compile_at_return (t : ty) : matcher := matcher_of_annotation (expr_for_type_ty (compiler_ty t)).
+(* stmt.rs StmtP::Assign: expr_for_type(ty); checked by InstrCheckType -> check_type *)
+Definition compile_at_assign (t : ty) : matcher := matcher_of_annotation (expr_for_type_ty (compiler_ty t)).
+(* host: TypeCompiled::new(value, heap) on a value produced by ordinary evaluation; new_frozen adds to_frozen *)
+Definition compile_at_host (t : ty) : matcher := tc_m (tc_new (eval_rt t)).
+Definition compile_at_host_frozen (t : ty) : matcher := tc_m (to_frozen (tc_new (eval_rt t))).
+(* an annotation that is a name bound to an already compiled (and frozen, when loaded) type: `x: T` *)
+Definition compile_at_param_alias (t : ty) : matcher :=
+  matcher_of_annotation (expr_for_type_ty (tc_ty (tc_new (TVComp (to_frozen (tc_new (eval_rt t))))))).
+
+Definition check_isinstance (t : ty) (v : value) : bool := matches (compile_at_isinstance t) v.
+Definition check_param (t : ty) (v : value) : bool := matches (compile_at_param t) v.
+Definition check_return (t : ty) (v : value) : bool := matches (compile_at_return t) v.
+Definition check_assign (t : ty) (v : value) : bool := matches (compile_at_assign t) v.
+Definition check_host (t : ty) (v : value) : bool := matches (compile_at_host t) v.
+Definition check_host_frozen (t : ty) (v : value) : bool := matches (compile_at_host_frozen t) v.
+Definition check_param_alias (t : ty) (v : value) : bool := matches (compile_at_param_alias t) v.
+
+(* ---- freezing ------------------------------------------------------------------------------ *)
+(* A run-time value with its representation tags: every heap object is either the mutable or the frozen
+   variant of its type (ListGen<ListData>/ListGen<FrozenListData>, TupleGen<Value>/TupleGen<FrozenValue>,
+   DictGen<RefCell<Dict>>/DictGen<FrozenDict>, Record/FrozenRecord, ...). *)
+Inductive hvalue :=
+| HLeaf (frozen : bool) (v : value)            (* a non-container of the catalogue *)
+| HList (frozen : bool) (vs : list hvalue)
+| HTuple (frozen : bool) (vs : list hvalue)
+| HSet (frozen : bool) (vs : list hvalue)
+| HDict (frozen : bool) (kvs : list (hvalue * hvalue)).
+
+(* what the matchers can see: ListRef::from_value, Tuple::from_value, DictRef::from_value, SetRef::from_value,
+   Record::from_value, EnumValue::from_value accept both variants; starlark_type_id() is shared by both *)
+Fixpoint view (g : hvalue) : value :=
+  match g with
+  | HLeaf _ v => v
+  | HList _ vs => VList (map view vs)
+  | HTuple _ vs => VTuple (map view vs)
+  | HSet _ vs => VSet (map view vs)
+  | HDict _ kvs => VDict (map (fun kv => let '(k, v) := kv in (view k, view v)) kvs)
+  end.
+(* Freezer: every reachable object is replaced by its frozen variant *)
+Fixpoint freeze_val (g : hvalue) : hvalue :=
+  match g with
+  | HLeaf _ v => HLeaf true v
+  | HList _ vs => HList true (map freeze_val vs)
+  | HTuple _ vs => HTuple true (map freeze_val vs)
+  | HSet _ vs => HSet true (map freeze_val vs)
+  | HDict _ kvs => HDict true (map (fun kv => let '(k, v) := kv in (freeze_val k, freeze_val v)) kvs)
+  end.
+Definition freeze_ty (c : tcomp) : tcomp := to_frozen c.
+(* TypeCompiled::matches -> type_matches_value -> type_compiled_impl.matches(value) *)
+Definition check_tc (c : tcomp) (g : hvalue) : bool := matches (tc_m c) (view g).
